@@ -197,6 +197,20 @@ func init() {
 		st.assume(And(Ge(r, IntLit(0)), Lt(r, n)))
 		return x.finish(st, fr, c, VScalar{r})
 	})
+	// robfig/cron: parsing a client supplied expression may fail; the parsed schedule is opaque
+	reg(repoModule+"/internal/util.ParseCron", "util.ParseCron (robfig/cron parser): may fail; on success a non-nil schedule", func(x *Exec, st *State, fr *Frame, c *callCtx) bool {
+		tup := c.ret.Type().(*types.Tuple)
+		fail := x.sym.Fresh("cron.parse.fails", SBool)
+		x.callCounter++
+		sched := VIface{Nil: fail, Typ: tup.At(0).Type(), Id: x.sym.Fresh("cron.schedule.id", SErr)}
+		return x.finish(st, fr, c, VTuple{[]Value{sched, x.freshErr(st, "cron.parse.err", Not(fail))}})
+	})
+	// go-playground/validator: a field error describes one failed binding rule with strings
+	for _, m := range []string{"Field", "Tag", "Param", "Error", "Namespace", "StructField", "ActualTag"} {
+		reg("(github.com/go-playground/validator/v10.FieldError)."+m, "an arbitrary string describing the failed rule", func(x *Exec, st *State, fr *Frame, c *callCtx) bool {
+			return x.finish(st, fr, c, VScalar{x.sym.Fresh("validator.field", SStr)})
+		})
+	}
 	// gocoro scheduler (used by System.Tick)
 	reg("github.com/resonatehq/gocoro.Add", "gocoro.Add(scheduler, f): the scheduler either accepts the coroutine (non-nil promise, true) or is full (nil, false); recorded as sched_add", func(x *Exec, st *State, fr *Frame, c *callCtx) bool {
 		ok := x.sym.Fresh("sched.add.ok", SBool)
